@@ -443,7 +443,10 @@ impl<'g> Cx<'g> {
                 None => false,
             },
             Place::MapEntry(b, k, _, _) => match self.pure_read(b, roots) {
-                Some(bt) => self.pure_update(b, format!("(RustSem.Map.insert {} {} {})", bt, k, v), roots),
+                Some(bt) => {
+                    let mns = b.ty().map_ns();
+                    self.pure_update(b, format!("({mns}.insert {} {} {})", bt, k, v), roots)
+                }
                 None => false,
             },
             Place::OptSome(b, _, _) => self.pure_update(b, format!("(some {})", v), roots),
@@ -846,11 +849,12 @@ impl<'g> Cx<'g> {
                             };
                             let (k, _) = self.expr(&gm.args[0], Some(&kt), stmts)?;
                             let cur = self.read(&base, stmts)?;
+                            let mns = base.ty().map_ns();
                             let site = self.site(&*init.expr);
                             let ed = else_doc(self)?;
                             self.pending_aliases.push((name.clone(), Place::MapEntry(Box::new(base), k.clone(), vt.clone(), site)));
                             let (rd, ty, div) = self.items(rest, tail, &[(name, vt)], span)?;
-                            return Ok((Doc::If(format!("RustSem.Map.contains_key {} {}", cur, k), Box::new(rd), Box::new(ed)), ty, div));
+                            return Ok((Doc::If(format!("{mns}.contains_key {} {}", cur, k), Box::new(rd), Box::new(ed)), ty, div));
                         }
                     }
                 }
@@ -1158,6 +1162,7 @@ impl<'g> Cx<'g> {
                         };
                         let (k, _) = self.expr(&en.args[0], Some(&kt), stmts)?;
                         let cur = self.read(&base, stmts)?;
+                        let mns = base.ty().map_ns();
                         // the default is only evaluated when the key is absent
                         let dflt_expr: &syn::Expr = if oname == "or_insert_with" {
                             match &oi.args[0] {
@@ -1173,15 +1178,15 @@ impl<'g> Cx<'g> {
                             let (d, _) = self.expr(dflt_expr, Some(&vt), stmts)?;
                             stmts.push(Stmt::Let(
                                 t.clone(),
-                                format!("(if RustSem.Map.contains_key {} {} then {} else RustSem.Map.insert {} {} {})", cur, k, cur, cur, k, d),
+                                format!("(if {mns}.contains_key {} {} then {} else {mns}.insert {} {} {})", cur, k, cur, cur, k, d),
                             ));
                         } else {
                             let mut ds: Vec<Stmt> = Vec::new();
                             let (d, _) = self.expr(dflt_expr, Some(&vt), &mut ds)?;
-                            let ins = Doc::seq(ds, Doc::atom(format!("pure (RustSem.Map.insert {} {} {})", cur, k, d)));
+                            let ins = Doc::seq(ds, Doc::atom(format!("pure ({mns}.insert {} {} {})", cur, k, d)));
                             stmts.push(Stmt::Bind(
                                 t.clone(),
-                                Doc::If(format!("RustSem.Map.contains_key {} {}", cur, k), Box::new(Doc::atom(format!("pure {}", cur))), Box::new(ins)),
+                                Doc::If(format!("{mns}.contains_key {} {}", cur, k), Box::new(Doc::atom(format!("pure {}", cur))), Box::new(ins)),
                             ));
                         }
                         self.write(&base, t, stmts)?;
@@ -1211,9 +1216,10 @@ impl<'g> Cx<'g> {
                         };
                         let (k, _) = self.expr(&gm.args[0], Some(&kt), stmts)?;
                         let cur = self.read(&base, stmts)?;
+                        let mns = base.ty().map_ns();
                         let site = self.site(&**init);
                         // the `unwrap()`
-                        stmts.push(Stmt::Bind("_".into(), Doc::atom(format!("RustSem.Map.index {} {} {}", cur, k, site))));
+                        stmts.push(Stmt::Bind("_".into(), Doc::atom(format!("{mns}.index {} {} {}", cur, k, site))));
                         self.declare(&name, vt.clone());
                         self.aliases.last_mut().unwrap().push((name, Place::MapEntry(Box::new(base), k, vt, site)));
                         return Ok(());
@@ -1621,12 +1627,13 @@ impl<'g> Cx<'g> {
                         };
                         let (k, _) = self.expr(&mc.args[0], Some(&kt), stmts)?;
                         let cur = self.read(&base, stmts)?;
+                        let mns = base.ty().map_ns();
                         let site = self.site(&*l.expr);
                         self.pending_aliases.push((name.clone(), Place::MapEntry(Box::new(base), k.clone(), vt.clone(), site)));
                         let (dt, tt, div_t) = self.block(&i.then_branch, tail, &[(name, vt)])?;
                         let (de, te, _) = else_doc(self, if div_t { None } else { Some(tt.clone()) })?;
                         let ty = if div_t { te } else { tt };
-                        return Ok((Doc::If(format!("(!RustSem.Map.contains_key {} {})", cur, k), Box::new(dt), Box::new(de)), ty));
+                        return Ok((Doc::If(format!("(!{mns}.contains_key {} {})", cur, k), Box::new(dt), Box::new(de)), ty));
                     }
                 }
             }
@@ -1668,12 +1675,13 @@ impl<'g> Cx<'g> {
                         };
                         let (k, _) = self.expr(&gm.args[0], Some(&kt), stmts)?;
                         let cur = self.read(&base, stmts)?;
+                        let mns = base.ty().map_ns();
                         let site = self.site(&*l.expr);
                         self.pending_aliases.push((name.clone(), Place::MapEntry(Box::new(base), k.clone(), vt.clone(), site)));
                         let (dt, tt, div_t) = self.block(&i.then_branch, tail, &[(name, vt)])?;
                         let (de, te, _) = else_doc(self, if div_t { None } else { Some(tt.clone()) })?;
                         let ty = if div_t { te } else { tt };
-                        return Ok((Doc::If(format!("RustSem.Map.contains_key {} {}", cur, k), Box::new(dt), Box::new(de)), ty));
+                        return Ok((Doc::If(format!("{mns}.contains_key {} {}", cur, k), Box::new(dt), Box::new(de)), ty));
                     }
                 }
             }
@@ -1697,7 +1705,55 @@ impl<'g> Cx<'g> {
         Ok((Doc::If(c, Box::new(dt), Box::new(de)), ty))
     }
 
+    /// `match x { P if g => a, rest.. }` ≡ `match x { P => if g { a } else { match x { rest.. } }, rest.. }` for a scrutinee
+    /// that is a plain variable / field path (evaluating it again has no effect)
+    fn desugar_guards(m: &syn::ExprMatch) -> syn::ExprMatch {
+        let mut out = m.clone();
+        for i in 0..out.arms.len() {
+            if let Some((_, g)) = out.arms[i].guard.take() {
+                let mut rest = m.clone();
+                rest.arms = m.arms[i + 1..].to_vec();
+                let rest = Self::desugar_guards(&rest);
+                let body = out.arms[i].body.clone();
+                let then_block: syn::Block = syn::Block { brace_token: Default::default(), stmts: vec![syn::Stmt::Expr((*body).clone(), None)] };
+                let else_expr = syn::Expr::Block(syn::ExprBlock {
+                    attrs: vec![],
+                    label: None,
+                    block: syn::Block { brace_token: Default::default(), stmts: vec![syn::Stmt::Expr(syn::Expr::Match(rest), None)] },
+                });
+                out.arms[i].body = Box::new(syn::Expr::If(syn::ExprIf {
+                    attrs: vec![],
+                    if_token: Default::default(),
+                    cond: g,
+                    then_branch: then_block,
+                    else_branch: Some((Default::default(), Box::new(else_expr))),
+                }));
+            }
+        }
+        out
+    }
+
     pub fn match_doc(&mut self, m: &syn::ExprMatch, tail: &Tail, stmts: &mut Vec<Stmt>) -> R<(Doc, Ty)> {
+        if m.arms.iter().any(|a| a.guard.is_some()) {
+            let mut sc: &syn::Expr = &m.expr;
+            loop {
+                match sc {
+                    syn::Expr::Paren(p) => sc = &p.expr,
+                    syn::Expr::Reference(r) if r.mutability.is_none() => sc = &r.expr,
+                    syn::Expr::Unary(u) if matches!(u.op, syn::UnOp::Deref(_)) => sc = &u.expr,
+                    syn::Expr::Field(f) => sc = &f.base,
+                    _ => break,
+                }
+            }
+            if !matches!(sc, syn::Expr::Path(p) if p.path.segments.len() == 1) {
+                return self.bail(m.expr.span(), "match guards are only supported on a variable / field scrutinee");
+            }
+            if m.arms.last().map(|a| a.guard.is_some()).unwrap_or(true) {
+                return self.bail(m.span(), "the last arm of a `match` must not have a guard");
+            }
+            let m2 = Self::desugar_guards(m);
+            return self.match_doc(&m2, tail, stmts);
+        }
         // `match map.get_mut(&k) { Some(x) => A, None => B }`: as `if let Some(x) = map.get_mut(&k) { A } else { B }`
         // (`x` is an alias of the entry)
         if let syn::Expr::MethodCall(gm) = &*m.expr {
@@ -1728,6 +1784,7 @@ impl<'g> Cx<'g> {
                     };
                     let (k, _) = self.expr(&gm.args[0], Some(&kt), stmts)?;
                     let cur = self.read(&base, stmts)?;
+                    let mns = base.ty().map_ns();
                     let site = self.site(&*m.expr);
                     self.pending_aliases.push((name.clone(), Place::MapEntry(Box::new(base), k.clone(), vt.clone(), site)));
                     let (dt, tt, div_t) = self.arm_doc(&sa.body, tail, &[(name, vt)])?;
@@ -1737,7 +1794,7 @@ impl<'g> Cx<'g> {
                     };
                     let (de, te, _) = self.arm_doc(&na.body, &tail_e, &[])?;
                     let ty = if div_t { te } else { tt };
-                    return Ok((Doc::If(format!("RustSem.Map.contains_key {} {}", cur, k), Box::new(dt), Box::new(de)), ty));
+                    return Ok((Doc::If(format!("{mns}.contains_key {} {}", cur, k), Box::new(dt), Box::new(de)), ty));
                 }
             }
         }
@@ -2331,8 +2388,9 @@ impl<'g> Cx<'g> {
             }
             Place::MapEntry(b, k, _, site) => {
                 let bt = self.read(b, stmts)?;
+                let mns = b.ty().map_ns();
                 let t = self.fresh();
-                stmts.push(Stmt::Bind(t.clone(), Doc::atom(format!("RustSem.Map.index {} {} {}", bt, k, site))));
+                stmts.push(Stmt::Bind(t.clone(), Doc::atom(format!("{mns}.index {} {} {}", bt, k, site))));
                 Ok(t)
             }
             Place::VariantField(b, en, vn, f, _, site) => {
@@ -2402,7 +2460,8 @@ impl<'g> Cx<'g> {
             }
             Place::MapEntry(b, k, _, _) => {
                 let bt = self.read(b, stmts)?;
-                self.write(b, format!("(RustSem.Map.insert {} {} {})", bt, k, v), stmts)
+                let mns = b.ty().map_ns();
+                self.write(b, format!("({mns}.insert {} {} {})", bt, k, v), stmts)
             }
             Place::VariantField(b, en, vn, f, _, _) => {
                 let bt = self.read(b, stmts)?;
@@ -2504,18 +2563,55 @@ impl<'g> Cx<'g> {
             return self.write(&place, new, stmts);
         }
         if let Ty::Map(kt, vt, _) = place.ty() {
+            let mns = place.ty().map_ns();
             let cur = self.read(&place, stmts)?;
             let new = match (name.as_str(), args.len()) {
                 ("insert", 2) => {
                     let (k, _) = self.expr(args[0], Some(&kt), stmts)?;
                     let (v, _) = self.expr(args[1], Some(&vt), stmts)?;
-                    format!("(RustSem.Map.insert {} {} {})", cur, k, v)
+                    format!("({mns}.insert {} {} {})", cur, k, v)
                 }
                 ("remove", 1) => {
                     let (k, _) = self.expr(args[0], Some(&kt), stmts)?;
-                    format!("(RustSem.Map.remove {} {})", cur, k)
+                    format!("({mns}.remove {} {})", cur, k)
                 }
                 ("clear", 0) => "[]".to_string(),
+                ("retain", 1) => {
+                    // `map.retain(|k, v| cond)` with a pure predicate that looks only at its own entry: order-independent
+                    let c = match args[0] {
+                        syn::Expr::Closure(c) if c.inputs.len() == 2 && c.capture.is_none() => c,
+                        o => return self.bail(o.span(), "`retain` needs a closure `|k, v| cond`"),
+                    };
+                    let mut names = Vec::new();
+                    let mut binds = Vec::new();
+                    for (inp, ty) in c.inputs.iter().zip([(*kt).clone(), (*vt).clone()]) {
+                        let mut ip: &syn::Pat = inp;
+                        while let syn::Pat::Reference(pr) = ip {
+                            ip = &pr.pat;
+                        }
+                        match ip {
+                            syn::Pat::Wild(_) => names.push("_".to_string()),
+                            syn::Pat::Ident(pi) if pi.subpat.is_none() => {
+                                self.check_local_name(&pi.ident.to_string(), pi.span())?;
+                                names.push(lean_ident(&pi.ident.to_string()));
+                                binds.push((pi.ident.to_string(), ty));
+                            }
+                            o => return self.bail(o.span(), "unsupported closure parameter"),
+                        }
+                    }
+                    if !self.assigned_in_expr(&c.body).is_empty() || super::analysis::expr_leaves_fn(&c.body) {
+                        return self.bail(args[0].span(), "the closure of `retain` must be a pure predicate");
+                    }
+                    self.push_scope(binds);
+                    let mut bs: Vec<Stmt> = Vec::new();
+                    let rb = self.expr(&c.body, Some(&Ty::Bool), &mut bs);
+                    self.pop_scope();
+                    let (b, bt) = rb?;
+                    if !bs.is_empty() || !matches!(bt, Ty::Bool) {
+                        return self.bail(args[0].span(), "the closure of `retain` must be a pure boolean expression");
+                    }
+                    format!("(List.filter (fun ({}, {}) => {}) {})", names[0], names[1], b, cur)
+                }
                 _ => return self.bail(mc.span(), format!("unsupported call of `{}` on a map", name)),
             };
             return self.write(&place, new, stmts);
